@@ -18,7 +18,7 @@ use crate::{
             },
         },
         format::format_part,
-        offset::{add_offset_to_dn, remove_offset_from_dn},
+        offset::{add_offset_to_dn, remove_offset_from_dn, try_remove_offset_from_dn},
         parse::{
             escaped_text, parse_format_string, parse_offset, parse_part, remove_part, ParseUnit,
             ParsedDate, ParsedTime, Period,
@@ -645,7 +645,7 @@ impl DateUtilities for DateTime {
         let new_days = set_year(days, year)?;
 
         Ok(Self {
-            days: remove_offset_from_dn(new_days, nanoseconds, offset_seconds).0,
+            days: try_remove_offset_from_dn(new_days, nanoseconds, offset_seconds)?.0,
             nanoseconds: self.nanoseconds,
             offset: self.offset,
         })
@@ -658,7 +658,7 @@ impl DateUtilities for DateTime {
         let new_days = set_month(days, month)?;
 
         Ok(Self {
-            days: remove_offset_from_dn(new_days, nanoseconds, offset_seconds).0,
+            days: try_remove_offset_from_dn(new_days, nanoseconds, offset_seconds)?.0,
             nanoseconds: self.nanoseconds,
             offset: self.offset,
         })
@@ -671,7 +671,7 @@ impl DateUtilities for DateTime {
         let new_days = set_day(days, day)?;
 
         Ok(Self {
-            days: remove_offset_from_dn(new_days, nanoseconds, offset_seconds).0,
+            days: try_remove_offset_from_dn(new_days, nanoseconds, offset_seconds)?.0,
             nanoseconds: self.nanoseconds,
             offset: self.offset,
         })
@@ -684,7 +684,7 @@ impl DateUtilities for DateTime {
         let new_days = set_day_of_year(days, day_of_year)?;
 
         Ok(Self {
-            days: remove_offset_from_dn(new_days, nanoseconds, offset_seconds).0,
+            days: try_remove_offset_from_dn(new_days, nanoseconds, offset_seconds)?.0,
             nanoseconds: self.nanoseconds,
             offset: self.offset,
         })
@@ -898,7 +898,7 @@ impl TimeUtilities for DateTime {
 
         let new_nanos = set_hour(nanos, hour)?;
 
-        let (new_days, new_nanos) = remove_offset_from_dn(days, new_nanos, offset_seconds);
+        let (new_days, new_nanos) = try_remove_offset_from_dn(days, new_nanos, offset_seconds)?;
 
         Ok(Self {
             days: new_days,
@@ -914,7 +914,7 @@ impl TimeUtilities for DateTime {
 
         let new_nanos = set_minute(nanos, minute)?;
 
-        let (new_days, new_nanos) = remove_offset_from_dn(days, new_nanos, offset_seconds);
+        let (new_days, new_nanos) = try_remove_offset_from_dn(days, new_nanos, offset_seconds)?;
 
         Ok(Self {
             days: new_days,
@@ -930,7 +930,7 @@ impl TimeUtilities for DateTime {
 
         let new_nanos = set_second(nanos, second)?;
 
-        let (new_days, new_nanos) = remove_offset_from_dn(days, new_nanos, offset_seconds);
+        let (new_days, new_nanos) = try_remove_offset_from_dn(days, new_nanos, offset_seconds)?;
 
         Ok(Self {
             days: new_days,
@@ -946,7 +946,7 @@ impl TimeUtilities for DateTime {
 
         let new_nanos = set_milli(nanos, milli)?;
 
-        let (new_days, new_nanos) = remove_offset_from_dn(days, new_nanos, offset_seconds);
+        let (new_days, new_nanos) = try_remove_offset_from_dn(days, new_nanos, offset_seconds)?;
 
         Ok(Self {
             days: new_days,
@@ -962,7 +962,7 @@ impl TimeUtilities for DateTime {
 
         let new_nanos = set_micro(nanos, micro)?;
 
-        let (new_days, new_nanos) = remove_offset_from_dn(days, new_nanos, offset_seconds);
+        let (new_days, new_nanos) = try_remove_offset_from_dn(days, new_nanos, offset_seconds)?;
 
         Ok(Self {
             days: new_days,
@@ -978,7 +978,7 @@ impl TimeUtilities for DateTime {
 
         let new_nanos = set_nano(nanos, nano)?;
 
-        let (new_days, new_nanos) = remove_offset_from_dn(days, new_nanos, offset_seconds);
+        let (new_days, new_nanos) = try_remove_offset_from_dn(days, new_nanos, offset_seconds)?;
 
         Ok(Self {
             days: new_days,
